@@ -528,8 +528,9 @@ pub fn run(run: &mut Run) {
     run.states = jobs.len() as u64;
     run.distinct_nontrivial = nontrivial;
     ragged_lexicase(run);
+    crate::bigpop::run_family(run, crate::bigpop::BigMode::Member);
     run.traces_validated = run.evaluations;
-    run.rule = "every selector configuration (Best, Worst, Random, Tournament(1..n+1), Lexicase(0..3 cases, 2 results available), lone Weighted, WeightedPair nestings of 2..4 real selectors, DynWeighted lists of 1..3; direct, behind &, through Select, and type-erased) x every population of size 0..n over 3 values x every word sequence of the mixed Grid(12)+Rep(12!,24) alphabet, and (n <= 3) of the alphabets that add the extreme words 0 and all-ones; plus Lexicase(0..3), direct and erased, on every ragged population (each individual with its own 0..3 results); non-trivial = scenarios with more than one distinct outcome".into();
+    run.rule = "every selector configuration (Best, Worst, Random, Tournament(1..n+1), Lexicase(0..3 cases, 2 results available), lone Weighted, WeightedPair nestings of 2..4 real selectors, DynWeighted lists of 1..3; direct, behind &, through Select, and type-erased) x every population of size 0..n over 3 values x every word sequence of the mixed Grid(12)+Rep(12!,24) alphabet, and (n <= 3) of the alphabets that add the extreme words 0 and all-ones; plus Lexicase(0..3), direct and erased, on every ragged population (each individual with its own 0..3 results); plus large populations (big.population_sizes, 10 structured populations) for Best, Worst, Random, Lexicase(2) and tournaments of sizes {1,2,3,7,11,12,n/3,n/2,n-2,n-1,n,n+1} on all streams of big.streams: a member or the documented tournament-size error; non-trivial = scenarios with more than one distinct outcome".into();
     run.bound("max_population", json!(max_n));
     run.bound("configurations", json!(configs.len()));
     run.bound("populations", json!(pops.len()));
@@ -539,6 +540,9 @@ pub fn run(run: &mut Run) {
 }
 
 pub fn replay(v: &Value) -> bool {
+    if v["big"] == json!(true) {
+        return crate::bigpop::replay(crate::bigpop::BigMode::Member, v);
+    }
     if let Some(rows) = v["ragged"].as_array() {
         let rows: Vec<Vec<i64>> = rows.iter().map(|r| r.as_array().map(|a| a.iter().filter_map(|x| x.as_i64()).collect()).unwrap_or_default()).collect();
         let c = v["cases"].as_u64().unwrap_or(0) as usize;
